@@ -5,6 +5,7 @@ import (
 	"math/big"
 
 	"github.com/Oneledger/protocol/data/balance"
+	"github.com/Oneledger/protocol/data/evm"
 	"github.com/Oneledger/protocol/data/keys"
 	ethcmn "github.com/ethereum/go-ethereum/common"
 )
@@ -108,5 +109,7 @@ func (s *CommitStateDB) deleteStateObject(so *stateObject) {
 	if err := s.accountKeeper.SetAccount(*so.account); err != nil {
 		s.setError(err)
 	}
+	// the storage goes with the account, otherwise an account created again at this address reads it
+	s.contractStore.DeleteAll(evm.AddressStoragePrefix(so.Address()))
 	s.accountKeeper.RemoveAccount(*so.account)
 }
